@@ -10,6 +10,7 @@ package main
 //   go-bin-args     a go statement calls a binary (host) function and an argument variable is reassigned
 //                   afterwards (F08-2)
 //   select-recv2-expr  `case v, ok := <-expr` with a channel expression that is not an identifier (F08-1)
+//   go-funclit-loop `go func(){…}()` executed again in the same frame while an earlier activation is still running (F08-6)
 //   go-method-recv  `go x.M(…)` on a method of a script type whose receiver operand is overwritten afterwards (F08-4)
 
 import (
@@ -35,7 +36,7 @@ func f1(x int) int { return x*x + 3*x + 1 }
 var templates = []func(r *rand.Rand) Tmpl{
 	tPipeline, tWorkerPool, tSelectPrivate, tMutexCounter, tProducerConsumer, tFanInSlots, tClosureLoop,
 	tGoArgCopy, tSelectMux, tPingPong, tParallelFib, tMethodGoroutines, tSemaphore, tSelectSharedSend,
-	tGoBinArgs, tRWMutexMap, tOnceAtomic, tNestedSpawn, tSelectDefaultPoll, tGoBinNoReassign, tMethodViaClosure,
+	tGoBinArgs, tRWMutexMap, tOnceAtomic, tNestedSpawn, tSelectDefaultPoll, tGoBinNoReassign, tMethodViaClosure, tGoFuncVar, tClosureSlice,
 }
 
 func tPipeline(r *rand.Rand) Tmpl {
@@ -236,18 +237,20 @@ func (c *Counter) Add(v int) {
 	c.mu.Unlock()
 }
 
+func bump(c *Counter, n int, wg *sync.WaitGroup) {
+	defer wg.Done()
+	for i := 0; i < n; i++ {
+		c.Add(i)
+	}
+}
+
 func main() {
 	const W, N = %d, %d
 	c := &Counter{}
 	var wg sync.WaitGroup
 	for w := 0; w < W; w++ {
 		wg.Add(1)
-		go func() {
-			defer wg.Done()
-			for i := 0; i < N; i++ {
-				c.Add(i)
-			}
-		}()
+		go bump(c, N, &wg)
 	}
 	wg.Wait()
 	fmt.Println("count", c.n, "sum", c.sum)
@@ -347,7 +350,7 @@ func tClosureLoop(r *rand.Rand) Tmpl {
 		a = append(a, fmt.Sprint(i*i+1))
 		b = append(b, fmt.Sprint(i*3))
 	}
-	return Tmpl{Name: "closure-loop", Kind: "prog", Expect: "[" + strings.Join(a, " ") + "]\n[" + strings.Join(b, " ") + "]\n", Src: fmt.Sprintf(`package main
+	return Tmpl{Name: "closure-loop", Class: "go-funclit-loop", Kind: "prog", Expect: "[" + strings.Join(a, " ") + "]\n[" + strings.Join(b, " ") + "]\n", Src: fmt.Sprintf(`package main
 
 import (
 	"fmt"
@@ -427,6 +430,90 @@ func main() {
 	wg.Wait()
 	fmt.Println(res)
 	fmt.Println("id", id, "p", p)
+}
+`, w)}
+}
+
+// a function VALUE (a literal evaluated once) started many times by go statements: call's binary branch,
+// "Goroutine's arguments should be copied"
+func tGoFuncVar(r *rand.Rand) Tmpl {
+	w := 2 + r.Intn(8)
+	var a []string
+	for i := 0; i < w; i++ {
+		a = append(a, fmt.Sprint(i*7+1+i))
+	}
+	return Tmpl{Name: "go-func-value", Kind: "prog", Expect: "[" + strings.Join(a, " ") + "]\n", Src: fmt.Sprintf(`package main
+
+import (
+	"fmt"
+	"sync"
+)
+
+type P struct{ X, Y int }
+
+func main() {
+	const W = %d
+	res := make([]int, W)
+	var wg sync.WaitGroup
+	f := func(slot int, v int, p P) {
+		s := 0
+		for j := 0; j < 30; j++ {
+			s += j
+		}
+		res[slot] = v + p.X + s - s
+		wg.Done()
+	}
+	x := 0
+	p := P{}
+	for k := 0; k < W; k++ {
+		x = k*7 + 1
+		p.X = k
+		wg.Add(1)
+		go f(k, x, p)
+		x = -100
+		p.X = -100
+	}
+	wg.Wait()
+	fmt.Println(res)
+}
+`, w)}
+}
+
+// closures made in a loop (each captures its iteration's variable), kept in a slice, run later by goroutines
+func tClosureSlice(r *rand.Rand) Tmpl {
+	w := 2 + r.Intn(8)
+	var a []string
+	for i := 0; i < w; i++ {
+		a = append(a, fmt.Sprint(i*i+1+10*i))
+	}
+	return Tmpl{Name: "closure-slice", Kind: "prog", Expect: "[" + strings.Join(a, " ") + "]\n", Src: fmt.Sprintf(`package main
+
+import (
+	"fmt"
+	"sync"
+)
+
+func run(k int, f func(int) int, res []int, wg *sync.WaitGroup) {
+	res[k] = f(10)
+	wg.Done()
+}
+
+func main() {
+	const W = %d
+	fs := make([]func(int) int, W)
+	for i := 0; i < W; i++ {
+		x := i*i + 1
+		y := i
+		fs[i] = func(m int) int { return x + m*y }
+	}
+	res := make([]int, W)
+	var wg sync.WaitGroup
+	for i := 0; i < W; i++ {
+		wg.Add(1)
+		go run(i, fs[i], res, &wg)
+	}
+	wg.Wait()
+	fmt.Println(res)
 }
 `, w)}
 }
@@ -604,8 +691,9 @@ func main() {
 // the same work with the receiver passed as an argument of a function literal: inside the domain
 func tMethodViaClosure(r *rand.Rand) Tmpl {
 	t := tMethodGoroutines(r)
-	t.Name, t.Class = "method-via-closure", ""
-	t.Src = strings.Replace(t.Src, "go accs[w].run(&wg)", "go func(a *Acc) { a.run(&wg) }(accs[w])", 1)
+	t.Name, t.Class = "method-via-function", ""
+	t.Src = strings.Replace(t.Src, "go accs[w].run(&wg)", "go start(accs[w], &wg)", 1)
+	t.Src = strings.Replace(t.Src, "func main() {", "func start(a *Acc, wg *sync.WaitGroup) { a.run(wg) }\n\nfunc main() {", 1)
 	return t
 }
 
@@ -618,36 +706,40 @@ import (
 	"sync"
 )
 
+type state struct{ cur, max, done int }
+
+func job(id int, sem chan struct{}, mu *sync.Mutex, st *state, wg *sync.WaitGroup) {
+	defer wg.Done()
+	sem <- struct{}{}
+	mu.Lock()
+	st.cur++
+	if st.cur > st.max {
+		st.max = st.cur
+	}
+	mu.Unlock()
+	s := 0
+	for j := 0; j < 40; j++ {
+		s += j * id
+	}
+	mu.Lock()
+	st.cur--
+	st.done++
+	mu.Unlock()
+	<-sem
+}
+
 func main() {
 	const W, L = %d, %d
 	sem := make(chan struct{}, L)
 	var mu sync.Mutex
 	var wg sync.WaitGroup
-	cur, max, done := 0, 0, 0
+	st := &state{}
 	for w := 0; w < W; w++ {
 		wg.Add(1)
-		go func(id int) {
-			defer wg.Done()
-			sem <- struct{}{}
-			mu.Lock()
-			cur++
-			if cur > max {
-				max = cur
-			}
-			mu.Unlock()
-			s := 0
-			for j := 0; j < 40; j++ {
-				s += j * id
-			}
-			mu.Lock()
-			cur--
-			done++
-			mu.Unlock()
-			<-sem
-		}(w)
+		go job(w, sem, &mu, st, &wg)
 	}
 	wg.Wait()
-	fmt.Println("done", done, "maxok", max <= L)
+	fmt.Println("done", st.done, "maxok", st.max <= L)
 }
 `, w, lim)}
 }
@@ -733,7 +825,7 @@ func tGoBinNoReassign(r *rand.Rand) Tmpl {
 	for i := 0; i < w; i++ {
 		sum += i * 11
 	}
-	return Tmpl{Name: "go-bin-call", Kind: "prog", Expect: fmt.Sprintf("n %d sum %d\n", w, sum), Src: fmt.Sprintf(`package main
+	return Tmpl{Name: "go-bin-call", Class: "go-funclit-loop", Kind: "prog", Expect: fmt.Sprintf("n %d sum %d\n", w, sum), Src: fmt.Sprintf(`package main
 
 import (
 	"fmt"
@@ -790,19 +882,21 @@ func (s *Store) Get(k int) int {
 	return s.m[k]
 }
 
+func fill(s *Store, n int, wg *sync.WaitGroup) {
+	defer wg.Done()
+	for k := 0; k < n; k++ {
+		s.Add(k, k)
+		_ = s.Get(k)
+	}
+}
+
 func main() {
 	const W, N = %d, %d
 	s := &Store{m: map[int]int{}}
 	var wg sync.WaitGroup
 	for w := 0; w < W; w++ {
 		wg.Add(1)
-		go func() {
-			defer wg.Done()
-			for k := 0; k < N; k++ {
-				s.Add(k, k)
-				_ = s.Get(k)
-			}
-		}()
+		go fill(s, N, &wg)
 	}
 	wg.Wait()
 	total := 0
@@ -824,21 +918,26 @@ import (
 	"sync/atomic"
 )
 
+var (
+	once  sync.Once
+	total int64
+	inits int
+)
+
+func count(n int, wg *sync.WaitGroup) {
+	defer wg.Done()
+	once.Do(func() { inits++ })
+	for i := 0; i < n; i++ {
+		atomic.AddInt64(&total, 1)
+	}
+}
+
 func main() {
 	const W, N = %d, %d
-	var once sync.Once
-	var total int64
-	inits := 0
 	var wg sync.WaitGroup
 	for w := 0; w < W; w++ {
 		wg.Add(1)
-		go func() {
-			defer wg.Done()
-			once.Do(func() { inits++ })
-			for i := 0; i < N; i++ {
-				atomic.AddInt64(&total, 1)
-			}
-		}()
+		go count(N, &wg)
 	}
 	wg.Wait()
 	fmt.Println("inits", inits, "total", atomic.LoadInt64(&total))
